@@ -107,6 +107,18 @@ func Gen(c *core.Chooser, p *PDU, o GenOpt) *Msg {
 		for i := range m.Seq {
 			m.Seq[i] = uint32(GenInt(c, 32))
 		}
+		// a sequence number that equals a command id of the protocol (its own, another type's, with or without the
+		// response bit), or the image's own length: header words that coincide
+		if p.Proto != nil && len(p.Proto.PDUs) > 0 && c.Prob(1, 16) {
+			q := p.Proto.PDUs[c.Intn(len(p.Proto.PDUs))]
+			if len(q.IDs) > 0 {
+				id := q.IDs[c.Intn(len(q.IDs))]
+				if c.Bool() {
+					id ^= 0x80000000
+				}
+				m.Seq[c.Intn(len(m.Seq))] = id
+			}
+		}
 		if p.Proto != nil && p.Proto.Header == "smpp16" {
 			m.Status = uint32(GenInt(c, 32))
 		}
